@@ -6,8 +6,27 @@ Tie: strict correspondence of `reversals`, `cycles`, `count_cycles`, `TimeSeries
 Search: the property's clauses evaluated directly on the implementation (conservation, largest range, counts,
 sortedness, empty table); the ASTM procedure itself is the Lean model, so a model/implementation difference in the
 counted cycles *is* a failing input for this property.
+
+Input classes (all inside the property's quantifier "all finite real sequences of length >= 2 x end-point option"):
+* K0  exact sequences handed over as a list of floats / float64 array (enumeration, random dyadics, near ties, 2^+-200 magnitudes,
+      wide mantissas, long offsets);
+* K1  the same sequence spelled differently: list / tuple / deque / generator / iterator / array.array / pandas Series, Python
+      ints, numpy scalars, -0.0, ndarrays of every float and integer dtype, non-contiguous / reversed / column / read-only views;
+      the end-point option by keyword, positionally, left out, or as a numpy bool;
+* K2  histories on ONE caller-owned array / list / TimeSeries: repeated calls, the other end-point setting in between, the
+      returned table scribbled over, in-place changes of the data between calls, interleaved `reversals` generators,
+      `TimeSeries.rfc` with time windows (ends on / between samples; tuple, list, ndarray, ints), options that do nothing,
+      resampling to the half step, data re-assigned or poked, a second series built from the same arrays, `app.funcs.calculate_rfc`;
+* K3  arbitrary binary64 signals (noise, sines, walks with plateaus, decimal-quantised data, large offsets, 2^+-200 / 1e+-60
+      units, long records) through `reversals` / `cycles` / `count_cycles` / `TimeSeries.rfc` (plain, windowed, filtered) /
+      `calculate_rfc`, against an independent harness-side ASTM reference (`ref_*`, itself compared with the Lean model on
+      every K0 case), with a tolerance of 1e-12 of the signal's magnitude, and only where exact and float arithmetic take the
+      same decisions ("robust" cases); the structural clauses are evaluated on every case.
+An exception raised by the implementation, or a result that cannot be read as lists of pairs / an (n, 3) table, is a failing
+clause, never a harness crash.
 """
 import itertools
+from collections import deque
 from fractions import Fraction
 
 import numpy as np
@@ -18,6 +37,11 @@ from ..core import rat
 RULE = ("sequences: all words over {0,1,2,3} up to the tier's length x endpoints, plus seeded random dyadic sequences, plus "
         "near-tie sequences (small-integer words whose points are moved by +-2^-k, k = 8..44, so that adjacent ranges differ by a "
         "relative 1e-3..1e-13 without being equal; also the whole sequence scaled by 2^j, j = -80..80: tiny and huge magnitudes); "
+        "plus words scaled by 2^+-(100..200), quantised signals with 30-45 significant bits, records of 200-400 samples; "
+        "each sequence also in another spelling (container, element type, dtype, view; end-point option by keyword / position / "
+        "default / numpy bool), in histories on one array / list / TimeSeries object (repeated and interleaved calls, in-place "
+        "changes, scribbled results, time windows, no-op options, half-step resampling, calculate_rfc), and arbitrary binary64 "
+        "signals against an independent reference with tolerance; "
         "non-trivial = yields at least one cycle; distinct by (endpoints, sequence)")
 
 
@@ -126,9 +150,9 @@ def parse_table(r):
     return [tuple(Fraction(v) for v in c.split(",")) for c in body.split(";")] if body else []
 
 
-def oracles(chk, seq, ep, im):
+def oracles(chk, seq, ep, im, tag=None):
     """property clauses on the implementation alone"""
-    inp = dict(series=[str(Fraction(v)) for v in seq], endpoints=ep)
+    inp = dict(series=[str(Fraction(v)) for v in seq], endpoints=ep, **(tag or {}))
     if len(seq) < 2:
         return
     if isinstance(im["table"], str):
@@ -160,8 +184,8 @@ def oracles(chk, seq, ep, im):
         chk.fail("table has three columns", inp, "(n,3)", str(im["shape"]))
 
 
-def compare(chk, seq, ep, im, m_rev, m_cyc, m_tab):
-    inp = dict(series=[str(Fraction(v)) for v in seq], endpoints=ep)
+def compare(chk, seq, ep, im, m_rev, m_cyc, m_tab, tag=None):
+    inp = dict(series=[str(Fraction(v)) for v in seq], endpoints=ep, **(tag or {}))
     mrev = parse_rev(m_rev)
     mf, mh = parse_cycles(m_cyc)
     mt = parse_table(m_tab)
@@ -233,28 +257,854 @@ def gen_cases(chk):
     yield [1], True
 
 
+# =============================================================================================================
+# independent harness-side reference (generic over Fraction and float): run-based turning points + stack procedure
+# =============================================================================================================
+def ref_reversals(s, ep):
+    """turning points: compress runs of equal samples, keep the interior strict local extrema; with end points the first and
+    the last sample are always counted (comparisons only: no products of slopes)"""
+    d = [s[0]]
+    for v in s[1:]:
+        if v != d[-1]:
+            d.append(v)
+    inner = [d[i] for i in range(1, len(d) - 1) if (d[i] > d[i - 1]) != (d[i + 1] > d[i])]
+    return [s[0]] + inner + [s[-1]] if ep else inner
+
+
+def ref_cycles(pts):
+    """ASTM E1049-85 5.4.4 on a list of points; (full, half) as lists of (range, mean)"""
+    st, full, half = [], [], []
+    for p in pts:
+        st.append(p)
+        while len(st) >= 3:
+            x, y = abs(st[-1] - st[-2]), abs(st[-2] - st[-3])
+            if x < y:
+                break
+            c = (y, (st[-2] + st[-3]) / 2)
+            if len(st) == 3:
+                half.append(c)
+                del st[0]
+            else:
+                full.append(c)
+                del st[-3:-1]
+    for a, b in zip(st, st[1:]):
+        half.append((abs(a - b), (a + b) / 2))
+    return full, half
+
+
+def ref_all(s, ep):
+    rev = ref_reversals(s, ep)
+    full, half = ref_cycles(rev)
+    one = type(s[0])(1)
+    tab = sorted([(r, m, one) for r, m in full] + [(r, m, one / 2) for r, m in half])
+    return dict(rev=rev, full=full, half=half, table=tab)
+
+
+# =============================================================================================================
+# K0+: more exact sequences (kept apart from gen_cases, which C03 re-uses)
+# =============================================================================================================
+def gen_more_cases(chk):
+    rng = chk.rng
+    # magnitudes: the signal in other units, 2^+-(100..200), exact (power-of-two scaling)
+    words = [[0, 1, 0, 1], [0, 2, 1, 3, 0], [3, -2, 1, -2, 4, -5], [0, -2, 1, -3, 5, -1, 3, -4, 4, -2, 0], [1, 1, 2, 2, 1, 1],
+             [0, 1, 0, 1, 0, 1, 0], [5, 0, 1, 0, 1, 0, 6], [2, 2], [1, 2, 3], [0, 3, 1, 2, 1, 2, 0, 3]]
+    for j in (200, -200, 150, -150, 100, -100):
+        for w in (words if not chk.quick else words[:6]):
+            for ep in (False, True):
+                yield [Fraction(v) * Fraction(2) ** j for v in w], ep
+    n = 300 if chk.quick else 4000
+    for _ in range(n):
+        ln = rng.choice([3, 4, 5, 6, 8, 12, 20])
+        base = [Fraction(rng.randint(-6, 6), rng.choice([1, 1, 2, 8])) for _ in range(ln)]
+        sc = Fraction(2) ** (rng.choice([-1, 1]) * rng.randint(81, 200))
+        yield [v * sc for v in base], rng.random() < 0.5
+    # wide mantissas: quantised "measured" signals with 30-45 significant bits (all sums / differences still exact)
+    import math
+    n = 500 if chk.quick else 6000
+    for _ in range(n):
+        ln = rng.choice([4, 6, 9, 15, 30, 60])
+        q = rng.choice([2 ** 20, 2 ** 24, 2 ** 30])
+        amp = rng.choice([1.0, 37.5, 1000.0, 30000.0])
+        kind = rng.random()
+        if kind < 0.4:
+            f1, f2, p = rng.uniform(0.05, 0.45), rng.uniform(0.01, 0.2), rng.uniform(0, 6.28)
+            xs = [amp * (math.sin(6.283 * f1 * i + p) + 0.5 * math.sin(6.283 * f2 * i)) for i in range(ln)]
+        elif kind < 0.7:
+            xs = [amp * rng.gauss(0, 1) for _ in range(ln)]
+        else:
+            x, xs = 0.0, []
+            for _i in range(ln):
+                if rng.random() < 0.7:
+                    x += amp * rng.gauss(0, 0.3)
+                xs.append(x)                                           # walk with plateaus
+        off = rng.choice([0, 0, 1234, -98765])
+        seq = [Fraction(round(v * q), q) + off for v in xs]
+        if rng.random() < 0.2 and ln >= 4:                              # an exact tie between two distant ranges
+            seq[-1] = seq[-3]
+        if exact_in_binary64(seq):
+            yield seq, rng.random() < 0.5
+    # records longer than anything above (size-dependent paths); small alphabet: many ties and plateaus
+    for ln in ((200, 257) if chk.quick else (200, 257, 400, 400, 400)):
+        yield [Fraction(rng.randint(-5, 5), rng.choice([1, 2])) for _ in range(ln)], rng.random() < 0.5
+
+
+# =============================================================================================================
+# K1: spellings of the same sequence / of the end-point option
+# =============================================================================================================
+INT_RANGE = {"int8": (-2 ** 7, 2 ** 7 - 1), "int16": (-2 ** 15, 2 ** 15 - 1), "int32": (-2 ** 31, 2 ** 31 - 1),
+             "int64": (-2 ** 63, 2 ** 63 - 1), "uint8": (0, 2 ** 8 - 1), "uint16": (0, 2 ** 16 - 1), "uint32": (0, 2 ** 32 - 1),
+             "uint64": (0, 2 ** 64 - 1)}
+EP_SPELLINGS = ("kw", "pos", "default", "np.bool_")
+
+
+def exact_in_float32(seq):
+    vals = [Fraction(v) for v in seq]
+    nz = [abs(v) for v in vals if v != 0]
+    if not nz:
+        return True
+    if any(v.denominator & (v.denominator - 1) for v in vals):
+        return False
+    unit = min(Fraction(v.numerator & -v.numerator, v.denominator) for v in nz)
+    top = max(nz)
+    # magnitudes within 2^+-60: in binary32 the product of two slopes (the turning-point test) must not underflow or overflow
+    return 4 * top / unit < 2 ** 24 and Fraction(1, 2 ** 60) < unit and top < 2 ** 60
+
+
+def spellings_for(seq):
+    """names of the containers in which this exact sequence can be handed over without changing its values"""
+    seq = [Fraction(v) for v in seq]
+    names = ["list:float", "tuple:float", "list:np.float64", "list:negzero", "ndarray:float64", "ndarray:>f8", "ndarray:longdouble",
+             "view:stride2", "view:reversed", "view:column", "ndarray:readonly", "generator", "iter", "deque", "array.array",
+             "pandas.Series", "list:Fraction"]
+    if exact_in_float32(seq):
+        names += ["ndarray:float32", "list:np.float32"]
+    if all(v.denominator == 1 for v in seq):
+        names += ["list:int", "tuple:int", "list:mixed", "list:np.int64", "array.array:q", "pandas.Series:int64"]
+        lo, hi = min(seq), max(seq)
+        names += ["ndarray:" + k for k, (a, b) in INT_RANGE.items() if a <= lo and hi <= b]
+    return names
+
+
+def int_wraps(name, seq):
+    """the samples arrive as fixed-width numpy integers, and some difference or sum of two samples, or the product of two
+    differences (the slope test of `reversals`), is not representable in that width (unsigned: any descent)"""
+    dt = name.split(":")[-1].replace("np.", "")
+    if name.split(":")[0] not in ("ndarray", "list", "pandas.Series") or dt not in INT_RANGE:
+        return False
+    a, b = INT_RANGE[dt]
+    vals = [Fraction(v) for v in seq]
+    lo, hi = min(vals), max(vals)
+    return not (a <= lo - hi and hi - lo <= b and a <= 2 * lo and 2 * hi <= b and (hi - lo) ** 2 <= b and -(hi - lo) ** 2 >= a)
+
+
+def container(name, seq):
+    """zero-argument factory of a FRESH container (generators are consumed by a call)"""
+    fr = [Fraction(v) for v in seq]
+    fl = [float(v) for v in fr]
+    kind, _, sub = name.partition(":")
+    if name == "list:float":
+        return lambda: list(fl)
+    if name == "tuple:float":
+        return lambda: tuple(fl)
+    if name == "list:int":
+        return lambda: [int(v) for v in fr]
+    if name == "tuple:int":
+        return lambda: tuple(int(v) for v in fr)
+    if name == "list:mixed":
+        return lambda: [int(v) if i % 2 == 0 else float(v) for i, v in enumerate(fr)]
+    if name == "list:Fraction":
+        return lambda: list(fr)
+    if name == "list:negzero":
+        return lambda: [-0.0 if v == 0 else v for v in fl]
+    if name.startswith("list:np."):
+        t = getattr(np, sub[3:])
+        return lambda: [t(v) for v in (fl if "float" in sub else [int(v) for v in fr])]
+    if name == "ndarray:readonly":
+        def mk():
+            a = np.array(fl)
+            a.flags.writeable = False
+            return a
+        return mk
+    if kind == "ndarray":
+        if sub in INT_RANGE:
+            return lambda: np.array([int(v) for v in fr], dtype=sub)
+        return lambda: np.array(fl).astype(sub)
+    if name == "view:stride2":
+        def mk():
+            a = np.empty(2 * len(fl))
+            a[0::2], a[1::2] = fl, [99.0 - v for v in fl]
+            return a[::2]
+        return mk
+    if name == "view:reversed":
+        return lambda: np.array(fl[::-1])[::-1]
+    if name == "view:column":
+        def mk():
+            m = np.full((len(fl), 3), 7.0)
+            m[:, 1] = fl
+            return m[:, 1]
+        return mk
+    if name == "generator":
+        return lambda: (v for v in fl)
+    if name == "iter":
+        return lambda: iter(fl)
+    if name == "deque":
+        return lambda: deque(fl)
+    if name == "array.array":
+        import array
+        return lambda: array.array("d", fl)
+    if name == "array.array:q":
+        import array
+        return lambda: array.array("q", [int(v) for v in fr])
+    if name == "pandas.Series":
+        import pandas as pd
+        return lambda: pd.Series(fl, index=range(5, 5 + len(fl)))
+    if name == "pandas.Series:int64":
+        import pandas as pd
+        return lambda: pd.Series([int(v) for v in fr], dtype="int64")
+    raise ValueError("unknown spelling " + name)
+
+
+def call(fn, s, ep, ep_as):
+    if ep_as == "kw":
+        return fn(s, endpoints=ep)
+    if ep_as == "pos":
+        return fn(s, ep)
+    if ep_as == "default":
+        assert ep is False
+        return fn(s)
+    if ep_as == "np.bool_":
+        return fn(s, endpoints=np.bool_(ep))
+    raise ValueError("unknown spelling of the option " + ep_as)
+
+
+def canon(v):
+    return Fraction(v) if isinstance(v, Fraction) else Fraction(float(v))
+
+
+def impl_spelled(mk, ep, ep_as):
+    """like impl_all, every function on a fresh container of the given spelling"""
+    from qats.fatigue import rainflow as rf
+    out = {}
+    try:
+        out["rev"] = [canon(v) for v in call(rf.reversals, mk(), ep, ep_as)]
+    except Exception as e:
+        out["rev"] = "err:" + type(e).__name__
+    try:
+        f, h = call(rf.cycles, mk(), ep, ep_as)
+        out["full"] = [(canon(a), canon(b)) for a, b in f]
+        out["half"] = [(canon(a), canon(b)) for a, b in h]
+    except Exception as e:
+        out["full"] = out["half"] = "err:" + type(e).__name__
+    try:
+        c = call(rf.count_cycles, mk(), ep, ep_as)
+        out["table"] = [tuple(Fraction(float(v)) for v in row) for row in c]
+        out["shape"] = tuple(c.shape)
+    except Exception as e:
+        out["table"] = "err:" + type(e).__name__
+    return out
+
+
+def is_intwrap_shape(f):
+    """proposed finding F39: fixed-width integer arrays wrap around in `reversals` / `cycles`"""
+    inp = f.get("input", {})
+    return isinstance(inp, dict) and "as" in inp and "series" in inp and int_wraps(inp["as"], inp["series"])
+
+
+def is_npbool_shape(f):
+    """proposed finding F40: `endpoints is True` ignores a true numpy bool"""
+    inp = f.get("input", {})
+    return isinstance(inp, dict) and inp.get("ep_as") == "np.bool_" and inp.get("endpoints") is True
+
+
+def gen_spellings(chk, cases):
+    """(seq, ep, container name, option spelling) — every admissible container is used, in seeded rotation"""
+    rng = chk.rng
+    pool = [c for c in cases if len(c[0]) >= 2]
+    n = 2500 if chk.quick else 25000
+    picked = [pool[i] for i in range(min(len(pool), 40))] + [rng.choice(pool) for _ in range(n)]
+    for k, (seq, ep) in enumerate(picked):
+        names = spellings_for(seq)
+        # fixed-width integer containers in which a difference wraps are generated apart (below)
+        names = [nm for nm in names if not int_wraps(nm, seq)]
+        name = names[(k + rng.randrange(3)) % len(names)]
+        ep_as = rng.choice(["kw", "pos"] if ep else list(EP_SPELLINGS))      # np.bool_(True) is generated apart (below)
+        yield seq, ep, name, ep_as
+    # a true numpy bool for the end-point option
+    for _ in range(8 if chk.quick else 60):
+        seq, _ep = rng.choice(pool)
+        yield seq, True, rng.choice(["list:float", "ndarray:float64", "tuple:float"]), "np.bool_"
+    # integer samples close to the limits of their dtype, and unsigned integers
+    for _ in range(24 if chk.quick else 200):
+        dt = rng.choice(["int8", "int16", "int32", "uint8", "uint16", "uint32", "uint64"])
+        ln = rng.choice([3, 4, 5, 7, 10])
+        if dt.startswith("u"):
+            top = rng.choice([5, 200, INT_RANGE[dt][1]])
+            seq = [Fraction(rng.randint(0, min(top, 2 ** 50))) for _ in range(ln)]
+        else:
+            step = INT_RANGE[dt][1] // 3
+            seq = [Fraction(rng.randint(-3, 3) * step) for _ in range(ln)]
+        yield seq, rng.random() < 0.5, "ndarray:" + dt, rng.choice(["kw", "pos"])
+
+
+def check_spelled(chk, seq, ep, name, ep_as, model):
+    tag = {"as": name, "ep_as": ep_as}
+    inp = dict(series=[str(Fraction(v)) for v in seq], endpoints=ep, **tag)
+    try:
+        mk = container(name, seq)
+        mk()
+    except Exception as e:                       # the harness cannot build this spelling here (e.g. no longdouble): not a verdict
+        chk.dist("spelling-unavailable:" + name)
+        return
+    chk.count("spelling")
+    chk.dist("as=" + name)
+    chk.dist("ep_as=" + ep_as)
+    try:
+        im = impl_spelled(mk, ep, ep_as)
+        compare(chk, seq, ep, im, *model, tag=tag)
+        oracles(chk, [Fraction(v) for v in seq], ep, im, tag=tag)
+    except Exception as e:
+        chk.fail("the results can be read as lists of (range, mean) pairs and an (n, 3) table", inp, "well-formed results",
+                 "%s: %s" % (type(e).__name__, str(e)[:200]))
+
+
+# =============================================================================================================
+# K2: histories on one caller-owned object
+# =============================================================================================================
+def refine(seq):
+    """linear interpolation at the half steps (what `resample=dt/2` produces on a uniform grid)"""
+    out = []
+    for a, b in zip(seq, seq[1:]):
+        out += [a, (a + b) / 2]
+    return out + [seq[-1]]
+
+
+def gen_histories(chk, cases):
+    rng = chk.rng
+    pool = [c[0] for c in cases if 3 <= len(c[0]) <= 40 and all(abs(Fraction(v)) < 2 ** 40 for v in c[0])
+            and all(Fraction(v).denominator <= 2 ** 20 for v in c[0])]
+    n = 350 if chk.quick else 4000
+
+    def other(seq):
+        """another exact sequence of the same length: a few samples changed, or a different case"""
+        alt = [s for s in (rng.choice(pool) for _ in range(6)) if len(s) == len(seq)]
+        if alt and rng.random() < 0.5:
+            return list(alt[0])
+        new = list(seq)
+        for _ in range(rng.choice([1, 1, 2, len(seq)])):
+            new[rng.randrange(len(new))] = Fraction(rng.randint(-8, 8), rng.choice([1, 2]))
+        return new
+
+    for k in range(n):
+        seq = [Fraction(v) for v in rng.choice(pool)]
+        ln = len(seq)
+        if k % 2 == 0:
+            steps = []
+            for _ in range(rng.randint(3, 7)):
+                r = rng.random()
+                if r < 0.35:
+                    steps.append(dict(op="count", ep=rng.random() < 0.5))
+                elif r < 0.45:
+                    steps.append(dict(op="cycles", ep=rng.random() < 0.5))
+                elif r < 0.55:
+                    steps.append(dict(op="reversals", ep=rng.random() < 0.5))
+                elif r < 0.62:
+                    steps.append(dict(op="scribble"))
+                elif r < 0.67:
+                    steps.append(dict(op="reject", how=rng.choice(["one-sample", "empty", "half-consumed"])))
+                elif r < 0.78:
+                    steps.append(dict(op="poke", i=rng.randrange(ln), v=str(Fraction(rng.randint(-8, 8), rng.choice([1, 2])))))
+                elif r < 0.9:
+                    steps.append(dict(op="overwrite", series=[str(v) for v in other(seq)]))
+                else:
+                    steps.append(dict(op="interleave", other=[str(v) for v in other(seq)], ep=rng.random() < 0.5))
+            steps.append(dict(op="count", ep=rng.random() < 0.5))
+            h = dict(kind="history", obj=rng.choice(["ndarray", "ndarray", "list"]), series=[str(v) for v in seq], steps=steps)
+        else:
+            dt = rng.choice([1, 1, Fraction(1, 2), 2])
+            t0 = rng.choice([0, 10, -3])
+            steps = []
+            for _ in range(rng.randint(3, 7)):
+                r = rng.random()
+                if r < 0.2:
+                    steps.append(dict(op="rfc"))
+                elif r < 0.45:
+                    i = rng.randrange(ln - 1)
+                    j = rng.randint(i + 1, ln - 1)
+                    if rng.random() < 0.25:
+                        i, j = 0, ln - 1                                      # a window that does nothing
+                    st = dict(op="rfc", win=[i, j], pad=rng.choice(["0", "0", "1/4"]),
+                              twin_as=rng.choice(["tuple", "list", "ndarray", "int"]))
+                    if dt == 1 and rng.random() < 0.3:
+                        st["resample"] = True
+                    steps.append(st)
+                elif r < 0.55:
+                    steps.append(dict(op="rfc", noop=rng.choice(["taperfrac=0.0", "window_len=1", "filterargs=None", "resample=None",
+                                                                 "twin=None", "window=hanning"])))
+                elif r < 0.62 and dt == 1:
+                    steps.append(dict(op="rfc", resample=True))
+                elif r < 0.67:
+                    steps.append(dict(op="scribble"))
+                elif r < 0.72:
+                    steps.append(dict(op="reject", how=rng.choice(["empty-window", "unknown-option", "one-sample-window"])))
+                elif r < 0.8:
+                    steps.append(dict(op="poke", i=rng.randrange(ln), v=str(Fraction(rng.randint(-8, 8), rng.choice([1, 2])))))
+                elif r < 0.9:
+                    steps.append(dict(op="setx", series=[str(v) for v in other(seq)]))
+                else:
+                    i = rng.randrange(ln - 1)
+                    j = rng.randint(i + 1, ln - 1)
+                    if rng.random() < 0.5:
+                        i, j = 0, ln - 1
+                    steps.append(dict(op="calc", win=[i, j], nbins_as=rng.choice(["pos", "kw"])))
+            steps.append(dict(op="rfc"))
+            h = dict(kind="history", obj="TimeSeries", series=[str(v) for v in seq], t0=str(t0), dt=str(dt),
+                     x_as=rng.choice(["float64", "int64", "list-backed", "shared"]), steps=steps)
+        if all(exact_in_binary64(s) for s, _ep in history_requests(h)):      # every content the object takes stays exact
+            yield h
+
+
+def walk(h):
+    """simulate the content of the object through the history; yields (step index, step, list of expectations) where an
+    expectation is (what, ep, sequence) with what in rev / cyc / tab"""
+    cur = [Fraction(v) for v in h["series"]]
+    first = list(cur)
+    for k, st in enumerate(h["steps"]):
+        op = st["op"]
+        exp = []
+        if op in ("count", "cycles", "reversals"):
+            exp = [({"count": "tab", "cycles": "cyc", "reversals": "rev"}[op], st["ep"], list(cur))]
+        elif op == "poke":
+            cur[st["i"]] = Fraction(st["v"])
+        elif op in ("overwrite", "setx"):
+            cur = [Fraction(v) for v in st["series"]]
+        elif op == "interleave":
+            exp = [("rev", st["ep"], list(cur)), ("rev", st["ep"], [Fraction(v) for v in st["other"]])]
+        elif op == "rfc":
+            s = list(cur)
+            if "win" in st:
+                s = s[st["win"][0]:st["win"][1] + 1]
+            if st.get("resample"):
+                s = refine(s)
+            exp = [("tab", False, s)]
+        elif op == "calc":
+            i, j = st["win"]
+            exp = [("tab", False, cur[i:j + 1]), ("tab", False, first[i:j + 1])]
+        yield k, st, exp
+
+
+def history_requests(h):
+    for _k, _st, exp in walk(h):
+        for _what, ep, s in exp:
+            yield s, ep
+
+
+def run_history(chk, h, model):
+    """execute the history on the implementation; every observation is compared with the model's result for the content
+    the object has at that moment.  `model[(ep, tuple(seq))] = (rev, cyc, tab)` reply lines."""
+    from qats.fatigue import rainflow as rf
+    spec = "ASTM E1049-85 5.4.4 three-point procedure (Lean model Qats.Rainflow) at every use of the same object"
+
+    def want(what, ep, s):
+        m_rev, m_cyc, m_tab = model[(ep, tuple(s))]
+        if what == "rev":
+            return parse_rev(m_rev)
+        if what == "cyc":
+            f, hh = parse_cycles(m_cyc)
+            return (sorted(f), sorted(hh))
+        return sorted(parse_table(m_tab))
+
+    def table(a):
+        a = np.asarray(a)
+        if a.ndim != 2 or a.shape[1] != 3:
+            return "shape %s" % (a.shape,)
+        return sorted(tuple(Fraction(float(v)) for v in row) for row in a)
+
+    def show(v):
+        if isinstance(v, (list, tuple)):
+            return "[" + ", ".join(show(u) for u in v) + "]"
+        return str(v)[:300]
+
+    fl = [float(Fraction(v)) for v in h["series"]]
+    last = None
+    if h["obj"] == "TimeSeries":
+        from qats import TimeSeries
+        from qats.app.funcs import calculate_rfc
+        t0, dt = Fraction(h["t0"]), Fraction(h["dt"])
+        tt = [float(t0 + dt * i) for i in range(len(fl))]
+        ta = np.array(tt)
+        xa = {"float64": np.array(fl), "int64": np.array(fl), "list-backed": np.array(list(fl)), "shared": np.array(fl)}[h["x_as"]]
+        if h["x_as"] == "int64" and all(float(v).is_integer() for v in fl):
+            xa = np.array([int(v) for v in fl], dtype="int64")
+        ts = TimeSeries("a", ta, xa)
+        tsb = TimeSeries("b", ta, xa) if h["x_as"] == "shared" else TimeSeries("b", np.array(tt), np.array(fl))
+    else:
+        x = np.array(fl) if h["obj"] == "ndarray" else list(fl)
+    for k, st, exp in walk(h):
+        inp = dict(h, step=k)
+        op = st["op"]
+        chk.count("history-step")
+        try:
+            if op == "count":
+                last = rf.count_cycles(x, endpoints=st["ep"])
+                got, exp_v = table(last), want(*exp[0])
+            elif op == "cycles":
+                f, hh = rf.cycles(x, endpoints=st["ep"])
+                got = (sorted((canon(a), canon(b)) for a, b in f), sorted((canon(a), canon(b)) for a, b in hh))
+                exp_v = want(*exp[0])
+            elif op == "reversals":
+                got, exp_v = [canon(v) for v in rf.reversals(x, endpoints=st["ep"])], want(*exp[0])
+            elif op == "scribble":
+                if isinstance(last, np.ndarray) and last.size:
+                    last[...] = 7.0
+                continue
+            elif op == "reject":
+                # a request outside the domain (fewer than two samples, unknown option) or an abandoned generator: whatever it
+                # does, the following valid requests must be answered correctly
+                try:
+                    how = st["how"]
+                    if how == "one-sample":
+                        rf.count_cycles(x[:1])
+                    elif how == "empty":
+                        rf.cycles(x[:0], endpoints=True)
+                    elif how == "half-consumed":
+                        next(rf.reversals(x, endpoints=True))
+                    elif how == "empty-window":
+                        ts.rfc(twin=(float(t0 + dt * len(fl) + 10), float(t0 + dt * len(fl) + 20)))
+                    elif how == "one-sample-window":
+                        ts.rfc(twin=(float(t0), float(t0)))
+                    else:
+                        ts.rfc(no_such_option=1)
+                except Exception:
+                    pass
+                continue
+            elif op == "poke":
+                if h["obj"] == "TimeSeries":
+                    ts.x[st["i"]] = float(Fraction(st["v"]))
+                else:
+                    x[st["i"]] = float(Fraction(st["v"]))
+                continue
+            elif op == "overwrite":
+                x[:] = [float(Fraction(v)) for v in st["series"]]
+                continue
+            elif op == "setx":
+                ts.x = np.array([float(Fraction(v)) for v in st["series"]])
+                continue
+            elif op == "interleave":
+                y = [float(Fraction(v)) for v in st["other"]]
+                g1, g2 = rf.reversals(x, endpoints=st["ep"]), rf.reversals(y, endpoints=st["ep"])
+                o1, o2 = [], []
+                live = [[g1, o1], [g2, o2]]
+                while live:
+                    for pair in list(live):
+                        try:
+                            pair[1].append(canon(next(pair[0])))
+                        except StopIteration:
+                            live.remove(pair)
+                got, exp_v = [o1, o2], [want(*exp[0]), want(*exp[1])]
+            elif op == "rfc":
+                kw = {}
+                if "win" in st:
+                    i, j = st["win"]
+                    pad = Fraction(st["pad"]) * dt
+                    a, b = t0 + dt * i - pad, t0 + dt * j + pad
+                    if st["twin_as"] == "int" and a.denominator == 1 and b.denominator == 1:
+                        kw["twin"] = (int(a), int(b))
+                    elif st["twin_as"] == "list":
+                        kw["twin"] = [float(a), float(b)]
+                    elif st["twin_as"] == "ndarray" and not st.get("resample"):
+                        kw["twin"] = np.array([float(a), float(b)])
+                    else:
+                        kw["twin"] = (float(a), float(b))
+                if st.get("resample"):
+                    kw["resample"] = 0.5
+                if "noop" in st:
+                    key, _, val = st["noop"].partition("=")
+                    kw[key] = {"0.0": 0.0, "1": 1, "None": None, "hanning": "hanning"}[val]
+                last = ts.rfc(**kw)
+                got, exp_v = table(last), want(*exp[0])
+            elif op == "calc":
+                i, j = st["win"]
+                twin = (float(t0 + dt * i), float(t0 + dt * j))
+                exp_v = [sorted((r, c) for r, m, c in want(*e)) for e in exp]
+                try:
+                    res = calculate_rfc({"a": ts, "b": tsb}, twin, None, None) if st["nbins_as"] == "pos" else \
+                        calculate_rfc({"a": ts, "b": tsb}, twin, None, nbins=None)
+                except ValueError:
+                    if not all(exp_v):
+                        continue        # recorded observation (DESIGN 9.4): calculate_rfc cannot unpack an EMPTY table; not a clause of C02
+                    raise
+                got = [sorted(zip((canon(v) for v in res[nm][0]), (canon(v) for v in res[nm][1]))) for nm in ("a", "b")]
+            else:
+                raise ValueError("unknown step " + op)
+        except Exception as e:
+            got, exp_v = "err:%s: %s" % (type(e).__name__, str(e)[:160]), (want(*exp[0]) if exp else "no error")
+        if got != exp_v:
+            chk.fail(spec + ": step %d (%s)" % (k, op), inp, show(exp_v), show(got), stream="history")
+            if isinstance(got, str):
+                return            # the object may be in any state after an exception
+
+
+# =============================================================================================================
+# K3: arbitrary binary64 signals against the independent reference (tolerance), every entry point
+# =============================================================================================================
+FLOAT_VIAS = ("functions:ndarray", "functions:list", "ts.rfc", "ts.rfc:twin", "calculate_rfc", "ts.rfc:lp", "ts.rfc:hp",
+              "calculate_rfc:lp")
+
+
+def gen_floats(chk):
+    rng = chk.rng
+    nrng = np.random.default_rng(rng.getrandbits(63))
+    n = 500 if chk.quick else 6000
+    # long records (size-dependent paths): integer-valued with many plateaus and ties, beginning and ending with one of the
+    # short corner words (plateau / descent before the first turning point, constant ends, ...)
+    longs = [(3000, "functions:ndarray"), (20000, "functions:ndarray"), (20000, "ts.rfc"), (12000, "functions:list")]
+    if not chk.quick:
+        longs += [(50000, "functions:ndarray"), (100000, "ts.rfc"), (50000, "calculate_rfc"), (1025, "functions:ndarray"),
+                  (4097, "ts.rfc:twin"), (65537, "functions:ndarray")]
+    corner = [[5, 3, 3, 1, 4, 0], [0, 0, 1, 1, 0], [2, 2, 2], [1, 3, 3, 2, 2, 5], [3, 1, 1, 2], [0, 4, 4], [4, 0, 0, 4, 4, 1]]
+    for i, (ln, via) in enumerate(longs):
+        a, b = rng.choice(corner), rng.choice(corner)
+        if rng.random() < 0.5:
+            b = b[::-1]
+        if i % 2 == 0:                      # the record starts on a plateau left downwards and ends on one reached downwards
+            a, b = [6, 6] + a, b + [-7, -7]
+        body = np.round(nrng.normal(0, 2, ln - len(a) - len(b)))
+        x = np.concatenate([a, body, b]) * rng.choice([1.0, 0.5, 8.0]) + rng.choice([0.0, 100.0])
+        yield dict(kind="float", bits=[core.fbits(v) for v in x], endpoints=False, via=via, f=0.1,
+                   win=[0, ln - 1] if rng.random() < 0.5 else [rng.randrange(5), ln - 1 - rng.randrange(5)], dt=rng.choice([1.0, 0.5]))
+    for k in range(n):
+        ln = rng.choice([2, 3, 4, 5, 8, 16, 40, 100, 300, 700])
+        kind = rng.choice(["gauss", "sines", "walk", "plateau", "decimal", "narrow", "sawtooth"])
+        if kind == "gauss":
+            x = nrng.normal(0, 1, ln)
+        elif kind == "sines":
+            i = np.arange(ln)
+            x = np.sin(rng.uniform(0.02, 2.5) * i + rng.uniform(0, 6)) + rng.uniform(0, 1) * np.sin(rng.uniform(0.02, 2.5) * i)
+        elif kind == "walk":
+            x = np.cumsum(nrng.normal(0, 1, ln))
+        elif kind == "plateau":
+            x = np.repeat(nrng.normal(0, 1, ln), nrng.integers(1, 4, ln))[:ln]
+        elif kind == "decimal":
+            x = np.round(nrng.normal(0, 1, ln) * rng.choice([1, 10, 100]), rng.choice([0, 1, 2, 3]))
+        elif kind == "narrow":
+            x = rng.choice([1e6, 1e9, 2.0 ** 40]) + nrng.normal(0, 1, ln) * rng.choice([1e-3, 1.0])
+        else:
+            x = np.where(np.arange(ln) % 2 == 0, 1.0, -1.0) * (1 + nrng.integers(0, 3, ln) * rng.choice([1.0, 0.1, 1 / 3]))
+        x = x * rng.choice([1, 1, 1, 1e-3, 1e6, 2.0 ** 200, 2.0 ** -200, 1e60, 1e-60]) + rng.choice([0, 0, 0, 12345.678, -1e6])
+        via = rng.choice(FLOAT_VIAS) if ln >= 40 else rng.choice(FLOAT_VIAS[:5])
+        ep = rng.random() < 0.5 if via.startswith("functions") else False
+        yield dict(kind="float", bits=[core.fbits(v) for v in x], endpoints=ep, via=via,
+                   f=round(rng.uniform(0.05, 0.4), 3), win=sorted(rng.sample(range(ln), 2)) if ln >= 2 else [0, 0],
+                   dt=rng.choice([1.0, 0.5, 0.1, 2.0]))
+
+
+def _rows_close(A, B, tol):
+    """multisets of tuples equal within tol in the first two entries (range, mean) and exactly in the others"""
+    if len(A) != len(B):
+        return False
+
+    def close(a, b):
+        return all(abs(u - v) <= tol for u, v in zip(a[:2], b[:2])) and tuple(a[2:]) == tuple(b[2:])
+    if all(close(a, b) for a, b in zip(sorted(A), sorted(B))):
+        return True
+    rest = list(B)
+    for a in A:
+        hit = next((i for i, b in enumerate(rest) if close(a, b)), None)
+        if hit is None:
+            return False
+        rest.pop(hit)
+    return True
+
+
+def _diff(exp, got):
+    """short description of two row lists that differ"""
+    e, g = sorted(exp), sorted(got)
+    i = next((k for k, (a, b) in enumerate(zip(e, g)) if a != b), min(len(e), len(g)))
+    return "%d rows, sorted rows from #%d: %s" % (len(e), i, e[i:i + 4]), "%d rows, sorted rows from #%d: %s" % (len(g), i, g[i:i + 4])
+
+
+def check_float(chk, c):
+    from qats.fatigue import rainflow as rf
+    x = [core.unfbits(b) for b in c["bits"]]
+    ep, via = c["endpoints"], c["via"]
+    inp = dict(c)
+    chk.count("float:" + via)
+    try:
+        entry_tab, xin = None, x
+        if via.startswith("functions"):
+            def mk():
+                return np.array(x) if via.endswith("ndarray") else list(x)
+        else:
+            from qats import TimeSeries
+            from qats.app.funcs import calculate_rfc
+            dt = c["dt"]
+            t = np.arange(len(x)) * dt
+            ts = TimeSeries("a", t, np.array(x))
+            kw = {}
+            if via in ("ts.rfc:twin", "calculate_rfc"):
+                i, j = c["win"]
+                kw["twin"] = (float(t[i]), float(t[j]))
+                xin = x[i:j + 1]
+            elif via in ("ts.rfc:lp", "ts.rfc:hp", "calculate_rfc:lp"):
+                kw["filterargs"] = (via[-2:], c["f"] / dt)
+                if via.startswith("calc"):
+                    kw["twin"] = (float(t[0]), float(t[-1]))
+                xin = [float(v) for v in ts.get(**kw)[1]]              # the filter is C12's subject; here: what is counted
+            if via.startswith("calculate_rfc"):
+                try:
+                    r, cc = calculate_rfc({"a": ts}, kw["twin"], kw.get("filterargs"), None)["a"]
+                    entry_tab = [(float(a), float(b)) for a, b in zip(r, cc)]
+                except ValueError:
+                    entry_tab = "empty-unpack"
+            else:
+                entry_tab = [tuple(float(v) for v in row) for row in ts.rfc(**kw)]
+
+            def mk():
+                return np.array(xin)
+        if len(xin) < 2:
+            return
+        scale = max(abs(v) for v in xin) or 1.0
+        tol = 1e-12 * scale
+        rf_f = ref_all(list(xin), ep)
+        rf_e = ref_all([Fraction(v) for v in xin], ep)
+        robust = (len(rf_f["full"]) == len(rf_e["full"]) and len(rf_f["half"]) == len(rf_e["half"])
+                  and _rows_close(rf_f["table"], [tuple(float(v) for v in r) for r in rf_e["table"]], tol))
+        chk.dist("float-robust" if robust else "float-fragile(rounding decides a tie)")
+        rev = [float(v) for v in rf.reversals(mk(), endpoints=ep)]
+        full, half = rf.cycles(mk(), endpoints=ep)
+        full, half = [(float(a), float(b)) for a, b in full], [(float(a), float(b)) for a, b in half]
+        tab_a = rf.count_cycles(mk(), endpoints=ep)
+        shape = tuple(np.shape(tab_a))
+        tab = [tuple(float(v) for v in row) for row in tab_a]
+        if full or half:
+            chk.nontriv(("float", ep, tuple(c["bits"][:40]), len(x)))
+        # -- clauses
+        if rev != [float(v) for v in rf_f["rev"]]:
+            chk.fail("counted points == turning points of the series (run-based reference), with its end points if asked", inp,
+                     str(rf_f["rev"][:12]), str(rev[:12]))
+        if 2 * len(full) + len(half) != max(len(rev) - 1, 0):
+            chk.fail("2*full + half == counted points - 1", inp, max(len(rev) - 1, 0), 2 * len(full) + len(half))
+        if len(shape) != 2 or shape[1] != 3:
+            chk.fail("table has three columns", inp, "(n,3)", str(shape))
+            return
+        if sorted(tab) != sorted([(r, m, 1.0) for r, m in full] + [(r, m, 0.5) for r, m in half]):
+            chk.fail("table rows == full cycles with count 1 + half cycles with count 1/2", inp,
+                     *_diff([(r, m, 1.0) for r, m in full] + [(r, m, 0.5) for r, m in half], tab))
+        if any(tab[i][:2] > tab[i + 1][:2] for i in range(len(tab) - 1)):
+            chk.fail("table sorted by range then mean", inp, "sorted", str(tab[:8]))
+        if len(rf_f["rev"]) >= 2:
+            span = max(rf_f["rev"]) - min(rf_f["rev"])
+            top = max((r for r, m, _c in tab), default=None)
+            if top is None or abs(top - span) > tol or any(r < 0 for r, m, _c in tab):
+                chk.fail("largest range == span between highest and lowest counted point (1e-12 of the magnitude)", inp, span, top)
+        elif tab:
+            chk.fail("no cycle -> empty table", inp, 0, len(tab))
+        if robust and not (_rows_close(full, rf_f["full"], tol) and _rows_close(half, rf_f["half"], tol)
+                           and _rows_close(tab, rf_f["table"], tol)):
+            chk.fail("counted cycles == ASTM E1049-85 5.4.4 on the turning points (independent reference, 1e-12 of the magnitude)",
+                     inp, *_diff(rf_f["table"], tab))
+        if entry_tab is not None:
+            if entry_tab == "empty-unpack":
+                if tab:
+                    chk.fail("calculate_rfc gives the ranges and counts of the window's table", inp, str(tab[:4]), "ValueError")
+            elif via.startswith("calculate_rfc"):
+                if not _rows_close([(r, 0.0, c2) for r, c2 in entry_tab], [(r, 0.0, c2) for r, m, c2 in tab], tol):
+                    chk.fail("calculate_rfc gives the ranges and counts of the window's table", inp,
+                             *_diff([(r, c2) for r, m, c2 in tab], entry_tab))
+            elif not _rows_close(entry_tab, tab, tol):
+                chk.fail("TimeSeries.rfc(**kwargs) counts the series that get(**kwargs) returns", inp, *_diff(tab, entry_tab))
+            elif robust and not _rows_close(entry_tab, rf_f["table"], tol):
+                chk.fail("TimeSeries.rfc(**kwargs) == ASTM E1049-85 5.4.4 on the turning points of the series that get(**kwargs) "
+                         "returns (independent reference, 1e-12 of the magnitude)", inp, *_diff(rf_f["table"], entry_tab))
+    except Exception as e:
+        chk.fail("reversals / cycles / count_cycles / TimeSeries.rfc give well-formed results for a finite series of >= 2 samples",
+                 inp, "no error", "%s: %s" % (type(e).__name__, str(e)[:200]))
+
+
+def model_lines(seq, ep):
+    xs = " ".join(rat(v) for v in seq)
+    e = "1" if ep else "0"
+    return ["rf.reversals %s %s" % (e, xs), "rf.cycles %s %s" % (e, xs), "rf.count %s %s" % (e, xs)]
+
+
+def check_case(chk, seq, ep, m_rev, m_cyc, m_tab):
+    """K0: list of floats / float64 array against the model, the clauses, and the harness reference against both"""
+    inp = dict(series=[str(Fraction(v)) for v in seq], endpoints=ep)
+    im = impl_all([float(v) for v in seq], ep)
+    try:
+        compare(chk, seq, ep, im, m_rev, m_cyc, m_tab)
+        oracles(chk, [float(v) for v in seq], ep, im)
+    except Exception as e:
+        chk.fail("the results can be read as lists of (range, mean) pairs and an (n, 3) table", inp, "well-formed results",
+                 "%s: %s" % (type(e).__name__, str(e)[:200]))
+    if len(seq) >= 2:
+        # the harness reference (used for arbitrary floats) is itself tied to the model on every exact case
+        rf_ = ref_all([Fraction(v) for v in seq], ep)
+        mrev, (mf, mh), mt = parse_rev(m_rev), parse_cycles(m_cyc), parse_table(m_tab)
+        if isinstance(mrev, str) or rf_["rev"] != mrev or sorted(rf_["full"]) != sorted(mf) or sorted(rf_["half"]) != sorted(mh) \
+                or sorted(rf_["table"]) != sorted(mt):
+            chk.disagree("harness reference vs model", inp, str((m_rev, m_cyc))[:300], str(rf_)[:300])
+        # counted points by the independent run-based definition (not by the implementation's own generator)
+        if not isinstance(im["rev"], str) and im["rev"] != rf_["rev"]:
+            chk.fail("counted points == turning points of the series (run-based reference), with its end points if asked", inp,
+                     [str(v) for v in rf_["rev"]], [str(v) for v in im["rev"]])
+        if not isinstance(im["table"], str) and len(rf_["rev"]) >= 2:
+            span = max(rf_["rev"]) - min(rf_["rev"])
+            top = max((r[0] for r in im["table"] if len(r) == 3), default=None)
+            if top != span:
+                chk.fail("largest range == span between highest and lowest turning point (run-based reference)", inp, str(span), str(top))
+    return im
+
+
 def run(chk):
     import qats  # noqa
     chk.extra["rule"] = RULE
     chk.assumptions += ["inputs are small integers / dyadic rationals so that the float arithmetic of the implementation is exact",
-                        "floating-point rounding (range ties created by rounding) is outside the theorems"]
+                        "floating-point rounding (range ties created by rounding) is outside the theorems",
+                        "arbitrary binary64 signals: values compared with 1e-12 of the signal's magnitude, and only when exact and "
+                        "float arithmetic take the same decisions; magnitudes within 2^+-200 (the product of two slopes neither "
+                        "underflows nor the sums overflow)"]
     drv = core.Driver()
-    cases = []
-    corpus = core.load_corpus("C02")
-    for c in corpus:
-        cases.append(([Fraction(v) for v in c["series"]], bool(c["endpoints"])))
+    cases, spelled, histories, floats = [], [], [], []
+    for c in core.load_corpus("C02"):
+        if c.get("kind") == "history":
+            histories.append(c)
+        elif c.get("kind") == "float":
+            floats.append(c)
+        elif "as" in c:
+            spelled.append(([Fraction(v) for v in c["series"]], bool(c["endpoints"]), c["as"], c.get("ep_as", "kw")))
+        else:
+            cases.append(([Fraction(v) for v in c["series"]], bool(c["endpoints"])))
+    ncorpus = len(cases)
     cases += list(gen_cases(chk))
+    cases += list(gen_more_cases(chk))
+    spelled += list(gen_spellings(chk, cases[ncorpus:] or cases))
+    histories += list(gen_histories(chk, cases))
+    floats += list(gen_floats(chk))
+    # one batch of model requests: every K0 case, then what the spellings and histories need in addition
+    index = {}
     lines = []
+
+    def need(seq, ep):
+        key = (bool(ep), tuple(Fraction(v) for v in seq))
+        if key not in index:
+            index[key] = len(lines)
+            lines.extend(model_lines(key[1], ep))
+        return key
     for seq, ep in cases:
-        xs = " ".join(rat(v) for v in seq)
-        e = "1" if ep else "0"
-        lines += ["rf.reversals %s %s" % (e, xs), "rf.cycles %s %s" % (e, xs), "rf.count %s %s" % (e, xs)]
+        need(seq, ep)
+    for seq, ep, _n, _e in spelled:
+        need(seq, ep)
+    for h in histories:
+        for s, ep in history_requests(h):
+            need(s, ep)
     outs = drv.run(lines)
+    model = {k: tuple(outs[i:i + 3]) for k, i in index.items()}
     for i, (seq, ep) in enumerate(cases):
-        im = impl_all([float(v) for v in seq], ep)
-        m_rev, m_cyc, m_tab = outs[3 * i:3 * i + 3]
+        m_rev, m_cyc, m_tab = model[(bool(ep), tuple(seq))]
         chk.count("rf.reversals+cycles+count")
         chk.dist("len=%d" % min(len(seq), 61) if len(seq) <= 8 else "len>8")
+        im = check_case(chk, seq, ep, m_rev, m_cyc, m_tab)
         if not isinstance(im["full"], str) and (im["full"] or im["half"]):
             chk.nontriv((ep, tuple(seq)))
             chk.dist("has_full" if im["full"] else "half_only")
@@ -262,8 +1112,6 @@ def run(chk):
             chk.dist("no_cycle_or_error")
         if i % 9973 == 7:
             chk.sample(dict(series=[str(v) for v in seq], endpoints=ep, model_table=m_tab))
-        compare(chk, seq, ep, im, m_rev, m_cyc, m_tab)
-        oracles(chk, [float(v) for v in seq], ep, im)
     # series-level entry point
     from qats import TimeSeries
     rng = chk.rng
@@ -280,21 +1128,63 @@ def run(chk):
         if got != im["table"]:
             chk.fail("TimeSeries.rfc() == count_cycles(x)", dict(series=[str(v) for v in seq], endpoints=False),
                      str(im["table"])[:300], str(got)[:300])
+    # K1 spellings, K2 histories, K3 arbitrary floats
+    for seq, ep, name, ep_as in spelled:
+        check_spelled(chk, seq, ep, name, ep_as, model[(bool(ep), tuple(seq))])
+    for h in histories:
+        chk.count("history")
+        chk.dist("history:" + h["obj"])
+        try:
+            run_history(chk, h, model)
+        except Exception as e:
+            chk.fail("every use of the same object gives the ASTM table of its current content", h, "no error",
+                     "%s: %s" % (type(e).__name__, str(e)[:200]))
+    for c in floats:
+        check_float(chk, c)
     chk.sample(dict(series=[0, -2, 1, -3, 5, -1, 3, -4, 4, -2, 0], endpoints=False, note="docstring example, also a Lean `example`"))
+    if histories:
+        chk.sample(histories[-1])
 
 
 def replay(rp):
     inp = rp["input"]
-    seq = [Fraction(v) for v in inp["series"]]
     chk = core.Check("C02", "quick", 0)
     drv = core.Driver()
-    xs = " ".join(rat(v) for v in seq)
-    e = "1" if inp["endpoints"] else "0"
-    outs = drv.run(["rf.reversals %s %s" % (e, xs), "rf.cycles %s %s" % (e, xs), "rf.count %s %s" % (e, xs)])
-    im = impl_all([float(v) for v in seq], inp["endpoints"])
-    compare(chk, seq, inp["endpoints"], im, *outs)
-    oracles(chk, [float(v) for v in seq], inp["endpoints"], im)
+    if isinstance(inp, dict) and inp.get("kind") == "float":
+        check_float(chk, inp)
+    elif isinstance(inp, dict) and inp.get("kind") == "history":
+        h = {k: v for k, v in inp.items() if k != "step"}
+        keys, lines = [], []
+        for s, ep in history_requests(h):
+            keys.append((bool(ep), tuple(s)))
+            lines += model_lines(s, ep)
+        outs = drv.run(lines)
+        model = {k: tuple(outs[3 * i:3 * i + 3]) for i, k in enumerate(keys)}
+        try:
+            run_history(chk, h, model)
+        except Exception as e:
+            chk.fail("every use of the same object gives the ASTM table of its current content", h, "no error",
+                     "%s: %s" % (type(e).__name__, str(e)[:200]))
+    else:
+        seq = [Fraction(v) for v in inp["series"]]
+        ep = bool(inp["endpoints"])
+        outs = drv.run(model_lines(seq, ep))
+        if "as" in inp:
+            check_spelled(chk, seq, ep, inp["as"], inp.get("ep_as", "kw"), tuple(outs))
+        else:
+            check_case(chk, seq, ep, *outs)
+            if len(seq) >= 2 and not ep:
+                from qats import TimeSeries
+                x = np.array([float(v) for v in seq])
+                try:
+                    got = [tuple(Fraction(float(v)) for v in row) for row in TimeSeries("a", np.arange(len(x), dtype=float), x).rfc()]
+                except Exception as e:
+                    got = "err:" + type(e).__name__
+                if got != impl_all(x, False)["table"]:
+                    chk.fail("TimeSeries.rfc() == count_cycles(x)", inp, "count_cycles(x)", str(got)[:300])
     for f in chk.failing:
-        print("FAILS:", f["oracle"], "expected", f["expected"], "observed", f["observed"])
+        print("FAILS:", f["oracle"], "expected", str(f["expected"])[:400], "observed", str(f["observed"])[:400])
+    for d in chk.disagreements:
+        print("DISAGREES:", d["stream"], "model", d["model"], "impl", d["impl"])
     print("replay: %d failing clause(s)" % len(chk.failing))
     return 1 if chk.failing else 0
